@@ -1,48 +1,15 @@
 import ProfiVerif.Driver.Codec
 open PV PV.Driver
 
-/-- Model mode: stateless engines answer line by line. -/
-def stepLine (line : String) : String :=
-  let w := splitWords line
-  match stepCodec w with
-  | some r => r
-  | none => "bad-op"
-
-partial def loop (h : IO.FS.Stream) (out : IO.FS.Stream) : IO Unit := do
-  let line ← h.getLine
-  if line.isEmpty then return ()
-  out.putStrLn (stepLine line)
-  loop h out
-
-def oracleOf (name : String) : Option (String → String → Option (String × String)) :=
-  match name with
-  | "C09" => some oracleC09
-  | _ => none
-
-def runOracle (name opsFile implFile : String) : IO UInt32 := do
-  match oracleOf name with
-  | none => IO.eprintln s!"unknown oracle {name}"; return 2
-  | some f =>
-    let ops := (← IO.FS.lines opsFile)
-    let obs := (← IO.FS.lines implFile)
-    let out ← IO.getStdout
-    let mut failed := 0
-    let mut checked := 0
-    for i in [0:ops.size] do
-      let o := obs.getD i ""
-      match f (ops.getD i "") o with
-      | none => checked := checked + 1
-      | some (cls, why) =>
-        checked := checked + 1
-        failed := failed + 1
-        if failed ≤ 200 then out.putStrLn s!"FAIL {i+1} {cls} {why}"
-    out.putStrLn s!"ORACLE checked={checked} failed={failed}"
-    return 0
-
+/-
+pvdriver model <engine>              : op lines on stdin → model observation lines on stdout
+pvdriver oracle <name> <ops> <impl>  : property oracle over the implementation's observations
+One line per engine / oracle below; each engine lives in its own `Driver/<Engine>.lean`.
+-/
 def main (args : List String) : IO UInt32 := do
+  let inp ← IO.getStdin
+  let out ← IO.getStdout
   match args with
-  | ["oracle", name, opsFile, implFile] => runOracle name opsFile implFile
-  | _ =>
-    let out ← IO.getStdout
-    loop (← IO.getStdin) out
-    return 0
+  | ["model", "codec"] => engineLoop (fun (_ : Unit) l => ((), (stepCodec (splitWords l)).getD "bad-op")) () inp out; return 0
+  | ["oracle", "C09", o, i] => oracleLoop (fun (_ : Unit) op obs => ((), oracleC09 op obs)) () o i
+  | _ => IO.eprintln "usage: pvdriver model <engine> | oracle <name> <ops> <impl>"; return 2
